@@ -603,6 +603,9 @@ func execC16(x *X) {
 			}
 			// --- other entry points at the same instant
 			c16agree(x, "correct", src, o, lres, lerr, H0, caseID)
+			if x.P.Run%3 == 0 {
+				c16bare(x, "correct", src, o, H0, caseID)
+			}
 		case "replicate":
 			before := srcSnap()
 			now := time.Now()
@@ -630,6 +633,9 @@ func execC16(x *X) {
 			res, resBytes = lres, Marshal(lres)
 			c16checkReplica(x, d, srcTree, src, lres, now, loc, H0)
 			c16agree(x, "replicate", src, nil, lres, lerr, H0, caseID)
+			if x.P.Run%3 == 0 {
+				c16bare(x, "replicate", src, nil, H0, caseID)
+			}
 		case "mut":
 			if res == nil {
 				continue
@@ -1056,6 +1062,107 @@ func c16agree(x *X, what string, src *gobl.Envelope, o *c16opts, lres *gobl.Enve
 			x.Probe("entry-points-agree")
 		}
 	}
+}
+
+// c16bare: the same request for the bare document (no envelope around it). The command-line
+// paths must then do what the library does with the document alone: correct or replicate it and
+// hand it back only if it validates.
+func c16bare(x *X, what string, src *gobl.Envelope, o *c16opts, H0, caseID string) {
+	if src.Document == nil {
+		return
+	}
+	docBytes, err := json.Marshal(src.Document)
+	if err != nil {
+		return
+	}
+	var optData []byte
+	if o != nil {
+		optData = o.jsonData()
+	}
+	// reference: the library on a parsed copy of the document
+	ref := new(schema.Object)
+	if err := json.Unmarshal(docBytes, ref); err != nil {
+		return
+	}
+	var refErr error
+	if p := safely(func() {
+		if what == "correct" {
+			refErr = ref.Correct(bill.WithData(optData))
+		} else {
+			refErr = ref.Replicate()
+		}
+		if refErr == nil {
+			refErr = ref.Validate()
+		}
+	}); p != "" {
+		return
+	}
+	want := ""
+	if refErr == nil {
+		want = normaliseDoc(Marshal(ref))
+	}
+	chunk := []int{0, 1, 7, 64}[int(x.P.Run)%4]
+	for _, ep := range []string{epCLI, epBulk} {
+		var out []byte
+		var err error
+		p := safely(func() {
+			switch ep {
+			case epCLI:
+				var r any
+				if what == "correct" {
+					r, err = cli.Correct(context.Background(), &cli.CorrectOptions{ParseOptions: &cli.ParseOptions{Input: chunkedReader(x, "in", docBytes, chunk)}, Data: optData})
+				} else {
+					r, err = cli.Replicate(context.Background(), &cli.ReplicateOptions{ParseOptions: &cli.ParseOptions{Input: chunkedReader(x, "in", docBytes, chunk)}})
+				}
+				if err == nil {
+					out = Marshal(r)
+				}
+			case epBulk:
+				pl := map[string]any{"data": docBytes}
+				if what == "correct" {
+					pl["options"] = optData
+				}
+				res, e2 := bulkOne(x, map[string]any{"action": what, "req_id": "r", "payload": pl}, chunk, nil)
+				if e2 != nil {
+					err = e2
+				} else if res.Error != nil {
+					err = res.Error
+				} else {
+					out = res.Payload
+				}
+			}
+		})
+		x.Case(caseID + "|bare|" + ep)
+		x.Probe("bare-document-through-entry-point")
+		if p != "" {
+			x.Violate(what+":panic:bare:"+ep, "entry point %s panicked on the bare document: %s\n  history: %s", ep, p, H0)
+			return
+		}
+		if (err != nil) != (refErr != nil) {
+			x.Violate(what+":bare-document-disagrees:"+ep, "entry point %s given the bare document returned error=%v while the library's %s + validate of the same document gives error=%v\n  history: %s", ep, err, what, refErr, H0)
+			return
+		}
+		if err == nil {
+			if got := normaliseDoc(out); got != want {
+				x.Violate(what+":bare-document-differs:"+ep+":"+GDiff([]byte(want), []byte(got)), "entry point %s given the bare document produced another document than the library; %s\n  history: %s", ep, DiffDetail([]byte(want), []byte(got)), H0)
+				return
+			}
+		}
+	}
+}
+
+// normaliseDoc strips what each run generates by itself from a bare document (or from the
+// document of an envelope, if one came back).
+func normaliseDoc(b []byte) string {
+	v, err := ParseJV(b)
+	if err != nil {
+		return "unparseable: " + string(b)
+	}
+	if d := v.Get("doc"); d != nil && v.Get("head") != nil {
+		v = d
+	}
+	v.Del("uuid")
+	return string(v.Encode(nil))
 }
 
 var _ = sort.Strings
